@@ -88,12 +88,14 @@ def signature(case, out):
     if not f:
         return "%s (%s): fault-free transfer returns but destination != source" % (fam, opts(case))
     if f[0] == "write":
+        how = ("its status was read but raised nothing" if out.get("fault_status_examined")
+               else "its status is discarded unread")
         if fam == "put/putfo":
             if case["confirm"]:
-                return ("put/putfo(confirm=True) returns normally although a pipelined WRITE was rejected: its status is "
-                        "never read and the size check passes because a later chunk extends the file")
-            return "put/putfo(confirm=False) returns normally although a pipelined WRITE was rejected (status never read)"
-        return "pipelined SFTPFile (%s): close() returns normally although a WRITE was rejected (status never read)" % opts(case)
+                return ("put/putfo(confirm=True) returns normally although a pipelined WRITE was rejected (%s; the size "
+                        "check passes because a later chunk extends the file)" % how)
+            return "put/putfo(confirm=False) returns normally although a pipelined WRITE was rejected (%s)" % how
+        return "pipelined SFTPFile (%s): close() returns normally although a WRITE was rejected (%s)" % (opts(case), how)
     if f[0] == "read":
         if f[2] == 1 and out.get("dest_is_prefix"):
             return ("get/getfo (%s) returns a truncated copy: a READ inside the file answered with EOF status is taken as end "
